@@ -1833,6 +1833,12 @@ func (b *Block) setExportedVars() (err error) {
 		return fmt.Errorf("number of labels (%d) exceeds what can be contained in max block size %d", numLabels, MaxBlockSize)
 	}
 
+	// The embedded counts come from outside (a client or the disk): every table must lie
+	// within the data before it is aliased, or later reads index past the end.
+	dataLen := uint64(len(b.data))
+	if 16+uint64(numLabels)*8 > dataLen {
+		return fmt.Errorf("block of %d bytes is too short for its %d labels", dataLen, numLabels)
+	}
 	b.Labels, err = dvid.AliasByteToUint64(b.data[16 : 16+numLabels*8])
 	if err != nil {
 		return
@@ -1848,20 +1854,36 @@ func (b *Block) setExportedVars() (err error) {
 	pos := uint32(16)
 	pos += numLabels * 8
 	nbytes := numSubBlocks * 2
+	if uint64(pos)+uint64(nbytes) > dataLen {
+		return fmt.Errorf("block of %d bytes is too short for the label counts of its %d sub-blocks", dataLen, numSubBlocks)
+	}
 	b.NumSBLabels, err = dvid.AliasByteToUint16(b.data[pos : pos+nbytes])
 	if err != nil {
 		return
 	}
 	var numSubBlockIndices uint32
+	var valueBytes uint64
 	for _, num := range b.NumSBLabels {
+		if num > SubBlockSize*SubBlockSize*SubBlockSize {
+			return fmt.Errorf("sub-block claims %d labels, more than its voxels", num)
+		}
 		numSubBlockIndices += uint32(num)
+		valueBytes += (uint64(bitsFor(num))*SubBlockSize*SubBlockSize*SubBlockSize + 7) / 8
 	}
 
 	pos += nbytes
 	subBlockIndexBytes := numSubBlockIndices * 4
+	if uint64(pos)+uint64(subBlockIndexBytes)+valueBytes > dataLen {
+		return fmt.Errorf("block of %d bytes is too short for its %d sub-block indices and %d bytes of packed values", dataLen, numSubBlockIndices, valueBytes)
+	}
 	b.SBIndices, err = dvid.AliasByteToUint32(b.data[pos : pos+subBlockIndexBytes])
 	if err != nil {
 		return
+	}
+	for _, index := range b.SBIndices {
+		if index >= numLabels {
+			return fmt.Errorf("sub-block index %d is outside the table of %d labels", index, numLabels)
+		}
 	}
 
 	pos += subBlockIndexBytes
